@@ -96,10 +96,13 @@ public:
 	m_value = v.index();
       } else if (m_kind == ExactlyOne || m_kind == ZeroOrMore ||
 		 m_kind == ZeroOrOne || m_kind == OneOrMore) {
-	if (!(m_kind == ExactlyOne && m_value.value() == v.index())) {
-	  m_kind = OneOrMore;
-	  m_value = boost::none;
-	}
+	// Even if the counter is 1(V) and v is V the counter must be
+	// incremented: a reference variable that is re-defined
+	// (p := make_ref(...) twice, or p := gep(p, 4)) denotes a
+	// different memory object while the old object can still be
+	// accessed (through an alias, or after moving p back).
+	m_kind = OneOrMore;
+	m_value = boost::none;
       } else {
 	CRAB_ERROR("small_range::increment unreachable");
       }
